@@ -161,6 +161,21 @@ def handleFeval (j : Json) : Option Json := do
   match k with
   | "l21axes" =>
     some (ok (jF (l21Axes cplx (← fNats? j "shape") (← fNats? j "axes") (← fFloats? j "x"))))
+  | "l21call" =>
+    -- `L21Norm(l2_axis)(x)`: `axes = null` is `l2_axis=None`; a block argument with an axis is a ValueError
+    let axes ← match field? j "axes" with
+      | none | some .null => some none
+      | some v => (getNats? v).map some
+    let shape ← match field? j "shape" with
+      | none | some .null => some []
+      | some v => getNats? v
+    match l21Call cplx axes shape (← fArg? j "x") with
+    | some r => some (ok (jF r))
+    | none => some (err "value")
+  | "nuclear" =>
+    match nuclearCall (← fNat? j "ndim") (← fFloats? j "sv") with
+    | some r => some (ok (jF r))
+    | none => some (err "shape")   -- ValueError "Input array must be two dimensional." (kind `shape` in the protocol)
   | "tv" =>
     let comps ← fFloatss? j "comps"
     let shape ← fNats? j "shape"
